@@ -366,7 +366,7 @@ PROPS["C03"] = mux_prop(
     explanation="Every transition of the real code that touches the flow-control accounting is checked from an arbitrary state: init (credit = peer window), send (one unit per Push, none without credit), receive/overrun (Reset of that flow only), consume (Acknowledge carries exactly the frames consumed since the last one, once), credit return.")
 
 PROPS["C04"] = mux_prop(
-    "C04", pick("c04_", extra=["c07_accept_queue_full", "c03_ack_accounting", "c10_push_est_full", "c10_push_est_room", "c10_datagram_est", "c11_recv_full_p2", "c02_w_plain_l1", "c02_r_rem0_q0_cap1", "c12_race_ack_w2", "c12_race_ack_w3"]),
+    "C04", pick("c04_", extra=["c07_accept_queue_full", "c03_ack_accounting_empty_push", "c03_ack_accounting", "c10_push_est_full", "c10_push_est_room", "c10_datagram_est", "c11_recv_full_p2", "c02_w_plain_l1", "c02_r_rem0_q0_cap1", "c12_race_ack_w2", "c12_race_ack_w3"]),
     note="liveness-critical arithmetic and non-blocking dispatch",
     bounds=dict(options="all (rwnd >= 1, default_rwnd_threshold >= 1) accepted by Options, all peer windows >= 1 (symbolic u32)", dispatch="inbound dispatch from full and non-full queues"),
     outside=["PARTIAL: 'every write eventually completes' is a liveness property over unbounded fair runs and is not checked; decided are (a) 1 <= ack threshold <= window advertised for every accepted Options pair (the deadlock condition), (b) the connection task never blocks on a slow reader (Push to a full queue, datagram to a full buffer return immediately), (c) an Acknowledge is emitted as soon as the threshold is reached, (d) a writer blocked on credit is woken by it (C12)",
